@@ -135,6 +135,73 @@ def session_cases(seed: int, n: int):
         yield pol, {"strict": r.random() < 0.3}, reqs
 
 
+def overlap_check(run: lib.Run, n: int) -> None:
+    """two decisions overlapping on ONE compiled function: while decision A is in progress — at every call it makes to the matcher
+    and right before it hands its selected rules to the evaluator — decision B (another request) runs to completion on the same
+    function; both must return what they return on their own.  (The engine runs each evaluation in a worker thread on the shared
+    compiled function; running B inside A's call is the same interleaving, made deterministic.)"""
+    from rbacx.core import compiler as rcompiler
+    r = random.Random(run.seed * 101 + 77)
+    shapes = [(a, t, i, at, e) for a in ACTS for t in TYPES for i in IDS for at in ATTRS for e in ("permit", "deny")]
+
+    def env_of(q):
+        return {"subject": {"id": q["sid"], "roles": [], "attrs": {}}, "action": q["action"],
+                "resource": {"type": q["rtype"], "id": q["rid"], "attrs": dict(q["rattrs"])}, "context": {}}
+    proj = lambda d: (d.get("decision"), d.get("rule_id") or d.get("last_rule_id"))  # noqa: E731
+    for _ in range(n):
+        pol = {"algorithm": gen.choice(r, gen.ALGOS), "rules": [shape(*gen.choice(r, shapes), j) for j in range(r.randrange(2, 6))]}
+        qa, qb = dict(gen.choice(r, REQS)), dict(gen.choice(r, REQS))
+        qb["rattrs"] = gen.choice(r, [{"level": 1}, {"level": 2}, {}])
+        ea, eb = env_of(qa), env_of(qb)
+        alone_a, alone_b = proj(rcompiler.compile(pol)(ea)), proj(rcompiler.compile(pol)(eb))
+        fn = rcompiler.compile(pol)
+        saved = (rcompiler.match_resource, rcompiler.evaluate_policy)
+        # count A's pause points
+        calls = [0]
+
+        def counting(orig):
+            def w(*a, **k):
+                calls[0] += 1
+                return orig(*a, **k)
+            return w
+        rcompiler.match_resource, rcompiler.evaluate_policy = counting(saved[0]), counting(saved[1])
+        try:
+            fn(ea)
+        finally:
+            rcompiler.match_resource, rcompiler.evaluate_policy = saved
+        total = calls[0]
+        for k in range(1, total + 1):
+            state = {"n": 0, "inside": False, "b": None}
+
+            def pausing(orig):
+                def w(*a, **kw):
+                    if not state["inside"]:
+                        state["n"] += 1
+                        if state["n"] == k:
+                            state["inside"] = True
+                            try:
+                                state["b"] = proj(fn(eb))
+                            finally:
+                                state["inside"] = False
+                    return orig(*a, **kw)
+                return w
+            rcompiler.match_resource, rcompiler.evaluate_policy = pausing(saved[0]), pausing(saved[1])
+            try:
+                got_a = proj(fn(ea))
+            except Exception as e:  # noqa: BLE001
+                got_a = ("raised", type(e).__name__)
+            finally:
+                rcompiler.match_resource, rcompiler.evaluate_policy = saved
+            run.evaluations += 1
+            run.count("overlap-on-one-compiled-function")
+            if got_a != alone_a or state["b"] != alone_b:
+                run.spec_failures.append({"policy": pol, "request": qa, "other_request": qb, "cfg": {"strict": False}, "pause_point": k,
+                                          "impl": {"A_overlapped": got_a, "A_alone": alone_a, "B_overlapped": state["b"], "B_alone": alone_b},
+                                          "model": None,
+                                          "spec": "a decision changed because another decision ran on the same compiled function in the meantime"})
+                return
+
+
 def irrelevant_rule(r: random.Random, req: dict) -> dict:
     """a rule whose action or resource target cannot match the request"""
     k = r.randrange(3)
@@ -190,13 +257,14 @@ def check(run: lib.Run, audit: dict) -> int:
                 "pairs over a 1/11 (quick) / 1/5 (thorough) subsample; every sequence of ≤3 rules inside each of the four tiers over {permit,deny} × "
                 "{no/true/false/ill-typed/literal-only time condition} × 3 algorithms (quick: a fifth of the triples; a quarter in strict mode), also with a more specific rule for another "
                 "resource in between; sessions: one Guard answering 2–6 requests that differ in attributes/id only (the compiled function must "
-                "be stateless); random 3–4-rule policies; random schema-grammar policies with explicit "
+                "be stateless); two decisions overlapping on one compiled function at every matcher/evaluator call of the first; random 3–4-rule policies; random schema-grammar policies with explicit "
                 "algorithm and sets; every third case re-run with an inserted irrelevant rule. non-trivial = a rule decided")
     run.exhaustive = True
     run.assumptions = ["single policies carry an explicit algorithm (C03's quantifier); the default-algorithm divergence is C17/F1"]
     if not audit["ok"]:
         raise lib.CheckError(f"Lean build/audit failed at {audit['stage']}: {audit.get('log') or audit.get('forbidden') or audit.get('bad_axioms')}")
     run_cases(run, audit, scale=run.boost)
+    overlap_check(run, (120 if run.tier == "quick" else 1500) * run.boost)
     violations = []
     if run.disagreements and not run.spec_failures:
         run_cases(run, audit, scale=4)
